@@ -21,7 +21,7 @@ import (
 type c04Case struct {
 	Forest model.Forest `json:"forest"`
 	Format string       `json:"format"`
-	Entry  string       `json:"entry"` // md | root | noiter | md-massive
+	Entry  string       `json:"entry"`           // md | root | noiter | md-massive
 	Again  int          `json:"again,omitempty"` // root entry: the tree was already encoded once when its last Again nodes were still missing
 }
 
@@ -395,7 +395,9 @@ func TestC04AfterFault(t *testing.T) {
 						c.Entry = "md"
 					}
 					col.eval(true, hash64(ff.String(), format, fmt.Sprint(j, massive)), "after-failed-write", "format:"+format)
-					col.sample(func() any { return map[string]any{"first": "encoded output, writer fails at write " + fmt.Sprint(j), "then": c} })
+					col.sample(func() any {
+						return map[string]any{"first": "encoded output, writer fails at write " + fmt.Sprint(j), "then": c}
+					})
 					if msg := c04Check(c); msg != "" {
 						violation(t, "C04", "c04", c, "after an earlier encoded output whose writer failed at write "+fmt.Sprint(j)+":\n"+msg)
 					}
